@@ -51,6 +51,9 @@ type Engine struct {
 	smu         sync.Mutex
 	solverTotal SolverStats
 	fastDecided int
+	wmu         sync.Mutex
+	everWritten map[string]bool
+	writtenGrew bool
 	noFastPath  bool
 
 	funcsExecuted sync.Map // *ssa.Function -> true (repo functions reached)
